@@ -62,7 +62,7 @@ def gen_history(rng, n):
                 img = rng.choice(gen_wopn.mutations(rng, img, 3))
             h.append("bankdata " + img.hex())
         elif c < 0.92:
-            img = good_mid if rng.random() < 0.5 else rng.choice(gen_smf.mutate(rng, good_mid, 3) + gen_smf.tail_cases()[:10])
+            img = good_mid if rng.random() < 0.5 else rng.choice(gen_smf.mutate(rng, good_mid, 3) + gen_smf.tail_cases()[:10] + [gen_smf.gen_cmf(rng)] * 4)     # (a well-formed CMF is parsed completely, then refused)
             h.append("opendata " + img.hex())
         elif c < 0.95:
             h.append("trackopt %d %d" % (rng.choice([0, 1, 2, 5, 100000]), rng.choice([1, 2, 3, 0, 4, 7])))
@@ -114,7 +114,7 @@ def monitor(h, io):
             elif w[0] == "chiptype" and v >= 0:
                 exp = [("ct", str(v))]
             elif w[0] == "vm" and 1 <= v <= 5:
-                exp = [("vm", str(v))] if (prev or {}).get("lv") == "0" else None
+                exp = [("vm", str(v))]      # an explicit model also ends the deprecated logarithmic-volume switch
             elif w[0] == "alloc":
                 exp = [("al", str(v) if -1 <= v < 3 else "-1")]
             elif w[0] == "arp":
@@ -135,7 +135,7 @@ def monitor(h, io):
                     "devid": [f for f in FIELDS if f != "dev"], "trackopt": FIELDS, "chanen": FIELDS, "chiptype": [f for f in FIELDS if f != "ct"],
                     "bankdata": [f for f in FIELDS if f not in ("lfo", "lff", "ct", "vm")]}[w[0]]
             diff = [f for f in keep if cur.get(f) != prev.get(f)]
-            if diff and not (prev.get("lv") != "0" and diff == ["vm"]):
+            if diff:
                 fails.append(("%s changed the setting %s from %s to %s" % (w[0], diff[0], prev.get(diff[0]), cur[diff[0]]), k)); break
         prev = cur
     return fails
@@ -213,4 +213,4 @@ def run(tier, replay=None):
                             "error text; an accepted value is reported by the matching getter; every other call leaves a setting alone (bank loads reset only LFO / chip type / volume "
                             "model); the 20 fields the Lean settings model covers are compared after every call"})
     return ctx.finish(trusted_extra=["settings without a public getter are read through the OPNMIDI_VERIF friend access"],
-                      assumptions=["chip types -1, 0, 1 only (other values select no chip family)", "the deprecated opn2_setLogarithmicVolumes is exercised but its interplay with the volume model is outside the theorems"])
+                      assumptions=["chip types -1, 0, 1 only (other values select no chip family)", "the deprecated opn2_setLogarithmicVolumes is part of the histories and of the theorems (Consistent covers it)"])
